@@ -20,7 +20,9 @@ asyncio: one private event loop with a *virtual* clock; every call is run to com
 timeouts elapse without waiting.
 """
 import asyncio
+import contextvars
 import logging
+import sys
 
 from . import common  # noqa: F401  (puts /repo/src on sys.path)
 from . import world as _w  # noqa: F401  (logging configuration, _Quiet)
@@ -36,6 +38,9 @@ logging.getLogger('engineio.client').setLevel(logging.CRITICAL)
 TRANSPORT_ERROR = engineio.Client.reason.TRANSPORT_ERROR
 SERVER_DISCONNECT = engineio.Client.reason.SERVER_DISCONNECT
 CLIENT_DISCONNECT = engineio.Client.reason.CLIENT_DISCONNECT
+
+
+_cur_ev = contextvars.ContextVar('verif_cur_ev', default=None)
 
 
 class Stuck(RuntimeError):
@@ -61,6 +66,14 @@ class VirtualLoop(asyncio.SelectorEventLoop):
             elif not self._stopping:
                 raise Stuck('event loop is idle with no timers')
         super()._run_once()
+
+    def quiesce(self):
+        """Run until every task is finished or parked on a future nobody has resolved yet."""
+        while True:
+            self.call_soon(self.stop)
+            self.run_forever()
+            if not self._ready:
+                break
 
 
 class _Task:
@@ -125,13 +138,13 @@ class LoopEio(engineio.Client):
             return
         w = self.world
         if pkt.packet_type == eio_packet.MESSAGE:
-            w.trace.append(['send', pkt.data])
+            w._rec(['send', pkt.data])
             if _complete(w.out_state, pkt.data):
                 w.react()
         elif pkt.packet_type == eio_packet.CLOSE:
-            w.trace.append(['close'])
+            w._rec(['close'])
         else:
-            w.trace.append(['eio', pkt.packet_type])
+            w._rec(['eio', pkt.packet_type])
 
 
 class AsyncLoopEio(engineio.AsyncClient):
@@ -164,13 +177,13 @@ class AsyncLoopEio(engineio.AsyncClient):
             return
         w = self.world
         if pkt.packet_type == eio_packet.MESSAGE:
-            w.trace.append(['send', pkt.data])
+            w._rec(['send', pkt.data])
             if _complete(w.out_state, pkt.data):
                 await w.areact()
         elif pkt.packet_type == eio_packet.CLOSE:
-            w.trace.append(['close'])
+            w._rec(['close'])
         else:
-            w.trace.append(['eio', pkt.packet_type])
+            w._rec(['eio', pkt.packet_type])
 
 
 def _mk_client_classes():
@@ -199,6 +212,15 @@ def ret_value(spec, args):
     raise ValueError(spec)
 
 
+class _Log(_w._Quiet):
+    """engine.io logs `exception()` for the handler errors it contains: recorded where they happen"""
+    world = None
+
+    def exception(self, msg, *a, **k):
+        self.errors.append((msg, type(sys.exc_info()[1]).__name__))
+        self.world._rec(['contained', type(sys.exc_info()[1]).__name__])
+
+
 class ClientWorld:
     """registry: dict(
          fns=[dict(ns=, ev=, coro=bool, legacy=bool, ret=spec)],      function handlers (sio.on)
@@ -213,7 +235,12 @@ class ClientWorld:
         self.depth = 0                # > 0 while a reaction is being played
         self.out_state = {'owed': 0}
         self.outcome = ('accept', 'E0')
-        self.eio_log = _w._Quiet()
+        self.eio_log = _Log()
+        self.eio_log.world = self
+        self.tagged = None            # during a concurrent burst: [(message index, entry)]
+        self.pending = []             # futures the suspended handlers of a burst wait on
+        self.seq = 0
+        self.n_suspended = 0          # handlers / callbacks that were really suspended inside a burst
         VClient, VAsyncClient = _mk_client_classes()
         opts.setdefault('reconnection', False)
         opts.setdefault('handle_sigint', False)
@@ -230,9 +257,28 @@ class ClientWorld:
         self.registry = registry or {'fns': [], 'classes': []}
         self._install(self.registry)
 
+    def _rec(self, entry):
+        tag = _cur_ev.get()
+        if self.tagged is not None and tag is not None:
+            self.seq += 1
+            self.tagged.append((tag, self.seq, entry))
+        else:
+            self.trace.append(entry)
+
+    async def _pause(self, susp):
+        """what a coroutine handler awaits: inside a burst a harness-owned future (the handler is
+        really suspended until the harness releases it), otherwise one trip through the loop"""
+        if self.tagged is not None and susp:
+            fut = self.loop.create_future()
+            self.pending.append(fut)
+            self.n_suspended += 1
+            await fut
+        else:
+            await asyncio.sleep(0)
+
     # ------------------------------------------------------------ application handlers
     def _record(self, kind, nskey, evkey, args):
-        self.trace.append(['invoke', kind, nskey, evkey, list(args)])
+        self._rec(['invoke', kind, nskey, evkey, list(args)])
 
     def _mk_handler(self, kind, nskey, h, bound=False):
         """A handler with the real arity: legacy disconnect handlers do not take the reason."""
@@ -263,9 +309,12 @@ class ClientWorld:
                     def f(a):
                         return body((a,))
         elif coro and self.is_async:
+            susp = h.get('susp', False)
+
             async def f(*args):
-                await asyncio.sleep(0)
-                return body(args)
+                r = body(args)              # recorded when the handler STARTS
+                await world._pause(susp)    # ... then it really gives up control
+                return r
         else:
             def f(*args):
                 return body(args)
@@ -282,15 +331,15 @@ class ClientWorld:
                 setattr(obj, 'on_' + m['ev'], f)
             self.sio.register_namespace(obj)
 
-    def callback(self, tok, coro=False):
+    def callback(self, tok, coro=False, susp=False):
         world = self
         if coro and self.is_async:
             async def cb(*args):
-                await asyncio.sleep(0)
-                world.trace.append(['cb', tok, list(args)])
+                world._rec(['cb', tok, list(args)])
+                await world._pause(susp)
         else:
             def cb(*args):
-                world.trace.append(['cb', tok, list(args)])
+                world._rec(['cb', tok, list(args)])
         return cb
 
     def auth(self, value, callable_=False, coro=False):
@@ -300,11 +349,11 @@ class ClientWorld:
         if coro and self.is_async:
             async def a():
                 await asyncio.sleep(0)
-                world.trace.append(['auth'])
+                world._rec(['auth'])
                 return value
         else:
             def a():
-                world.trace.append(['auth'])
+                world._rec(['auth'])
                 return value
         return a
 
@@ -333,14 +382,12 @@ class ClientWorld:
                 self.depth -= 1
 
     def _contained(self, before):
-        for _msg, cls in self.eio_log.errors[before:]:
-            self.trace.append(['contained', cls])
-        self.trace.append(['<'])          # ... and ends here
+        self._rec(['<'])          # ... and ends here (contained errors are recorded by the logger)
 
     def _play(self, r):
         eio = self.eio
         before = len(self.eio_log.errors)
-        self.trace.append(['>'])          # harness-side marker: one transport event starts here
+        self._rec(['>'])          # harness-side marker: one transport event starts here
         if r[0] == 'frame':
             if eio.state == 'connected':          # a dead transport delivers nothing
                 eio._trigger_event('message', r[1], run_async=False)
@@ -364,7 +411,7 @@ class ClientWorld:
     async def _aplay(self, r):
         eio = self.eio
         before = len(self.eio_log.errors)
-        self.trace.append(['>'])
+        self._rec(['>'])
         if r[0] == 'frame':
             if eio.state == 'connected':
                 await eio._trigger_event('message', r[1], run_async=False)
@@ -409,6 +456,56 @@ class ClientWorld:
             self.loop.run_until_complete(self._aplay(r))
         else:
             self._play(r)
+
+    def burst(self, events):
+        """Several engine.io messages the way engine.io's asyncio client dispatches them: one task per
+        message, the next one delivered while the handlers of the previous ones are suspended; then the
+        suspended handlers are released in order.  -> [(trace of that message, snapshot after its
+        delivery)], the last snapshot taken when everything has finished.  (Threaded client: one after
+        the other.)"""
+        self.script = None
+        out = []
+        if not self.is_async:
+            for e in events:
+                self._play(e)
+                out.append((self.take(), self.snapshot()))
+            return out
+        self.tagged = []
+        self.pending = []
+        snaps = []
+        tasks = []
+        try:
+            for i, e in enumerate(events):
+                async def run(i=i, e=e):
+                    _cur_ev.set(i)
+                    await self._aplay(e)
+                tasks.append(self.loop.create_task(run()))
+                self.loop.quiesce()
+                snaps.append(self.snapshot())
+            while self.pending:
+                self.pending.pop(0).set_result(None)
+                self.loop.quiesce()
+            stuck = [t for t in tasks if not t.done()]
+            tagged = self.tagged
+        finally:
+            self.tagged = None
+            self.pending = []
+        for t in tasks:
+            if t.done() and not t.cancelled() and t.exception() is not None:
+                tagged.append((tasks.index(t), 10 ** 9, ['other', 'task raised ' + type(t.exception()).__name__]))
+        for t in stuck:
+            t.cancel()
+            tagged.append((tasks.index(t), 10 ** 9, ['other', 'task never finished']))
+        if stuck:
+            self.loop.quiesce()
+        snaps[-1] = self.snapshot()
+        # handlers and callbacks must start in the order of delivery
+        starts = [(seq, tag) for tag, seq, en in tagged if en[0] in ('invoke', 'cb')]
+        if [t for _s, t in sorted(starts)] != sorted(t for _s, t in starts):
+            tagged.append((len(events) - 1, 10 ** 9, ['other', 'handlers started out of delivery order']))
+        for i in range(len(events)):
+            out.append(([en for tag, _s, en in tagged if tag == i], snaps[i]))
+        return out
 
     def connect(self, namespaces, auth=None, wait=True, outcome=('accept', 'E0'), reacts=None,
                 wait_timeout=None):
